@@ -141,3 +141,15 @@ Theorem C04_extend_narrows_frozen_partial : forall q c b c',
   (forall v, total v = true -> conforms c' v -> accepts b v) /\ compat q b c' = true.
 Proof. exact extend_narrows_frozen. Qed.
 Print Assumptions C04_extend_narrows_frozen_partial.
+
+(* The code as it is today (any quirk flags, in particular all of them on): compat is sound for a
+   receiver that steers clear of the open findings — [avoids q a]: no frozen part if the frozen
+   receiver is ignored, no List with a positive min_size if min_size is ignored, no Enum if an
+   Enum rule is loose — and has no Union inside. *)
+Theorem C04_compat_sound_current_code_partial : forall q a b,
+  no_union a = true -> avoids q a = true ->
+  wf a -> wf b -> keys_ok b = true -> sizes_ok b = true ->
+  compat q a b = true ->
+  forall v, total v = true -> conforms b v -> accepts a v.
+Proof. intros q a b NU AV. exact (compat_sound_avoiding q a NU AV b). Qed.
+Print Assumptions C04_compat_sound_current_code_partial.
